@@ -1318,14 +1318,37 @@ where
             };
             let level = node.level();
 
-            let literal_set = crate::set_pop(manager, literal_set, level);
+            /// Remove all literals above `until` from the literal set. In
+            /// contrast to `set_pop()`, this also works for negative literals.
+            fn pop<'a, M: Manager<EdgeTag = EdgeTag, Terminal = BCDDTerminal>>(
+                manager: &'a M,
+                set: Borrowed<'a, M::Edge>,
+                until: LevelNo,
+            ) -> Borrowed<'a, M::Edge>
+            where
+                M::InnerNode: HasLevel,
+            {
+                match manager.get_node(&set) {
+                    Node::Inner(n) if n.level() < until => {
+                        let (t, e) = collect_cofactors(set.tag(), n);
+                        if is_false(manager, &t) {
+                            pop(manager, e, until)
+                        } else {
+                            pop(manager, t, until)
+                        }
+                    }
+                    _ => set,
+                }
+            }
+
+            let literal_set = pop(manager, literal_set, level);
             let (literal_set, c) = match manager.get_node(&literal_set) {
                 Node::Inner(node) if node.level() == level => {
                     let (t, e) = collect_cofactors(literal_set.tag(), node);
                     if is_false(manager, &e) {
-                        (e, true)
+                        (t, true)
                     } else {
-                        (t, false)
+                        (e, false)
                     }
                 }
                 _ => (literal_set, false),
